@@ -215,7 +215,7 @@ def make_harness(text, want_native=True, log=None):
         cbs.append(f'    fn delete_node_{n}(&mut self, node_ref: NodeRef) {{ self.ev(2, {rule_names.index(n)}, node_ref.0); }}')
     for i, p in enumerate(preds):
         # lookahead offered to predicates is observed (kind 4): peek(0), peek(1), peek_left(0), peek_left(1)
-        cbs.append(f'    fn {p}(&self) -> bool {{ log_ev(Ev {{ kind: 4, id: self.peek(0) as usize, node: self.peek(1) as usize, pos: self.pos, in_choice: self.in_ordered_choice, nlen: self.peek_left(0) as usize, nrule: self.peek_left(1) as usize, noff: {i} }}); nondet_bool() }}')
+        cbs.append(f'    fn {p}(&self) -> bool {{ log_ev(Ev {{ kind: 4, id: self.peek(0) as usize, node: self.peek(1) as usize, pos: self.pos, in_choice: self.in_ordered_choice, nlen: self.peek_left(0) as usize, nrule: self.peek_left(1) as usize, noff: {i} }}); log_ev(Ev {{ kind: 5, id: self.peek(2) as usize, node: self.peek(3) as usize, pos: self.pos, in_choice: self.in_ordered_choice, nlen: self.peek_left(2) as usize, nrule: self.peek_left(3) as usize, noff: {i} }}); nondet_bool() }}')
     for i, a in enumerate(acts):
         cbs.append(f'    fn {a}(&mut self, _diags: &mut Vec<Self::Diagnostic>) {{ self.ev(3, {i}, 0); }}')
     for i, a in enumerate(asserts):
@@ -224,7 +224,7 @@ def make_harness(text, want_native=True, log=None):
     alltoks = ['EOF'] + eofs + toks + ['Error']
     entries = ['"parse" => p.parse(&mut diags)'] + [f'"parse_{p}" => p.parse_{p}(&mut diags)' for p in parts]
     main = MAIN_TEMPLATE % dict(tokmatch=', '.join(f'"{t}" => Token::{t}' for t in alltoks), entries=', '.join(entries))
-    key = hashlib.sha256((gen + '\0' + lib + '\0' + main + '\0v7').encode()).hexdigest()[:24]
+    key = hashlib.sha256((gen + '\0' + lib + '\0' + main + '\0v8').encode()).hexdigest()[:24]
     d = os.path.join(WORK, 'h', key)
     if not (os.path.exists(os.path.join(d, 'meta.json')) and os.path.exists(os.path.join(d, 'mir.txt'))
             and (not want_native or os.path.exists(os.path.join(d, 'native')))):
